@@ -66,6 +66,19 @@ extern "C" void harness_run()
   }
   uint64_t closeDelay = sim::draw(4) == 0 ? 0 : sim::draw(400000);
   bool sampler = sim::draw(2) == 1;
+  // hand-off phase (second queue, after the main scenario): waiters block first, then exactly as many wake-ups as actions are owed
+  struct HandOff { int side = 0; int waiters = 0; std::vector<int> waitKind; std::vector<int> actKind; int actors = 1; unsigned gapUs = 0; size_t cap = 1; } ho;
+  ho.side = (int)sim::draw(3); // 0 none, 1 consumers blocked on an empty queue, 2 producers blocked on a full queue
+  if (ho.side)
+  {
+    ho.waiters = 2 + (int)sim::draw(3);
+    int k = 1 + (int)sim::draw((uint64_t)ho.waiters);
+    for (int i = 0; i < ho.waiters; i++) ho.waitKind.push_back((int)sim::draw(3) == 2 ? 1 : 0); // 0 untimed, 1 timed (10 s: far beyond the quiet gap)
+    for (int i = 0; i < k; i++) ho.actKind.push_back((int)sim::draw(ho.side == 1 ? 4 : 3));
+    ho.actors = 1 + (int)sim::draw(2);
+    ho.gapUs = sim::draw(3) == 2 ? (unsigned)sim::draw(300) : 0;
+    ho.cap = (size_t)k + sim::draw(2);
+  }
   sim::notef("cap=%zu producers=%d consumers=%d closeMode=%d closeDelay=%lluns sampler=%d", w.cap, np, nc, closeMode,
              (unsigned long long)closeDelay, sampler);
   for (int p = 0; p < np; p++)
@@ -274,6 +287,76 @@ extern "C" void harness_run()
     for (auto& r : w.puts[p])
       if (!r.ok && r.kind <= 1 && (w.close_inv == 0 || r.sp.ret < w.close_inv))
         sim::fail("bq-spurious-closed", "blocking queue() failed before close() was invoked");
+  // ---- hand-off phase: "no caller stays blocked while its condition holds", decided at a quiescent point instead of through
+  // the deadlock detector (which a later notify or close() would mask). Stalls are off, nothing but the woken waiters can run
+  // during the quiet gap, so after it a blocked waiter next to a satisfied condition is a lost wake-up.
+  if (ho.side)
+  {
+    sim::Config q = cfg;
+    q.stall_ppm = 0;
+    q.create_stall_permille = 0;
+    sim::reconfigure(q);
+    BlockingQueue<Item> q2(ho.cap);
+    if (ho.side == 2) for (size_t i = 0; i < ho.cap; i++) q2.queue(Item{90, (int)i});
+    std::vector<std::atomic<int>> done((size_t)ho.waiters); // 0 blocked, 1 returned true, 2 returned false
+    for (auto& d : done) d.store(0);
+    std::vector<std::thread> ws, as;
+    for (int i = 0; i < ho.waiters; i++)
+      ws.emplace_back([&, i]
+      {
+        char nm[16];
+        snprintf(nm, sizeof nm, "waiter%d", i);
+        sim::name_thread(nm);
+        bool ok;
+        Item it{91, i};
+        if (ho.side == 1) ok = ho.waitKind[(size_t)i] ? q2.dequeue(it, std::chrono::seconds(10)) : q2.dequeue(it);
+        else ok = ho.waitKind[(size_t)i] ? q2.tryQueue(it, std::chrono::seconds(10)) : q2.queue(it);
+        done[(size_t)i].store(ok ? 1 : 2);
+      });
+    sim::sleep_ns(1000000); // every waiter is parked on its condition variable by now
+    std::atomic<int> acted{0};
+    for (int a = 0; a < ho.actors; a++)
+      as.emplace_back([&, a]
+      {
+        sim::name_thread(a ? "actor1" : "actor0");
+        for (size_t i = (size_t)a; i < ho.actKind.size(); i += (size_t)ho.actors)
+        {
+          bool ok;
+          Item it{92, (int)i};
+          if (ho.side == 1)
+            switch (ho.actKind[i])
+            {
+            case 0: ok = q2.queue(it); break;
+            case 1: ok = q2.queue(Item{92, (int)i}); break;
+            case 2: ok = q2.tryQueue(it, std::chrono::milliseconds(5)); break;
+            default: ok = q2.tryQueue(it); break;
+            }
+          else
+            switch (ho.actKind[i])
+            {
+            case 0: ok = q2.dequeue(it); break;
+            case 1: ok = q2.dequeue(it, std::chrono::milliseconds(5)); break;
+            default: ok = q2.tryDequeue(it); break;
+            }
+          if (ok) acted.fetch_add(1);
+          if (ho.gapUs) sim::sleep_ns((uint64_t)ho.gapUs * 1000ull);
+        }
+      });
+    for (auto& t : as) t.join();
+    sim::sleep_ns(100000000ull); // quiet gap: 100 simulated ms in which only woken waiters are runnable
+    int blocked = 0, returned = 0;
+    for (auto& d : done) { int v = d.load(); if (v == 0) blocked++; else returned++; if (v == 2) sim::fail("bq-handoff-failed", "a %s waiter returned false although the queue was open and its 10 s timeout was far away", ho.side == 1 ? "dequeue" : "queue"); }
+    size_t sz = q2.size();
+    if (ho.side == 1 && blocked > 0 && sz > 0)
+      sim::fail("bq-blocked-with-item", "%d consumer(s) still blocked in dequeue() 100 simulated ms after the last put although %zu item(s) sit in the open queue (%d puts accepted, %d consumers returned) | %s",
+                blocked, sz, acted.load(), returned, sim::threads_report().c_str());
+    if (ho.side == 2 && blocked > 0 && sz < ho.cap)
+      sim::fail("bq-blocked-with-space", "%d producer(s) still blocked in queue() 100 simulated ms after the last take although the open queue holds %zu of %zu (%d takes succeeded, %d producers returned) | %s",
+                blocked, sz, ho.cap, acted.load(), returned, sim::threads_report().c_str());
+    sim::count(ho.side == 1 ? "bq.handoff_consumers" : "bq.handoff_producers");
+    q2.close();
+    for (auto& t : ws) t.join();
+  }
   sim::count("bq.accepted", accepted);
   sim::count("bq.refused", [&] { size_t n = 0; for (auto& v : w.puts) for (auto& r : v) if (!r.ok) n++; return n; }());
   sim::state_mix(accepted * 131 + w.cap * 7 + (uint64_t)np * 3 + (uint64_t)nc);
